@@ -17,6 +17,17 @@ def features(case, run, val):
 
 
 
+def case_gen(rng, k):
+    case = gen.gen_loop_case(rng) if k % 4 else gen.gen_case(rng, groups=True, loops=True)
+    if k % 3 == 1:
+        # the value carried round the loop is None (a bare ping): None is a value like any other and triggers like any other
+        for b in case['beh']:
+            if b.get('type') != 'time-based' and rng.random() < 0.8:
+                b['none_outputs'] = [key for key in b.get('outputs', {}) if rng.random() < 0.6]
+                b['none_attrs'] = ['po', 'eo', 'e2']
+    return case
+
+
 def run(out, info, tier, seed):
     out.trusted_base = common.COMMON_TRUSTED + [
         'modelled by hand: sim_process/next_step_settled/wait_for_dependencies/step/get_outputs/notify_dependencies/advance_progress/'
@@ -25,7 +36,7 @@ def run(out, info, tier, seed):
         'theorem premise static_ok (shape facts; the ancestors table dominates every trigger path) is checked per scenario by comparing the model-built tables with the implementation, not yet discharged by a closure theorem']
     out.assumptions = ['simulators are an oracle: any reply sequence (event list); delays that are compared have equal shape (convex group scenarios)']
     sched_check.sched_property(out, info, tier, seed, 'C09', KINDS, monitors.P_C09, gen_opts={'groups': True},
-                               ncases=(260, 2500), case_gen=lambda rng, k: gen.gen_loop_case(rng) if k % 4 else gen.gen_case(rng, groups=True, loops=True), variants=[(True, True), (False, True)], nontrivial=nontrivial, features=features,
+                               ncases=(260, 2500), case_gen=case_gen, variants=[(True, True), (False, True)], nontrivial=nontrivial, features=features,
                                known_match=None, hyp=None,
                                extra_obligations=[('Sched.Inv (invariant preserved by every event)', 'Sched/Inv'),
                                                   ('Sched.Guards / Sched.Final', 'Sched/Final')])
